@@ -555,6 +555,63 @@ func c18exec(c *h.Ctx, cs *h.Case) {
 			os.Remove(file)
 			obs = first
 			outs = append(outs, "group:"+c18class(first))
+		case len(tk) == 4 && tk[1] == "uses":
+			// what a consumer does with the roster of a group it has read: rosters made from parts of its list
+			// (onet.NewRoster promises a copy), servers added to those (Roster.Concat), a rotation, a subset.
+			// The group that was read must still hold the identities of the file afterwards.
+			k, err := strconv.Atoi(tk[2])
+			su, _ := c20unhex(tk[3])
+			suite, serr := suites.Find(su)
+			if err != nil || k < 1 || !haveText || serr != nil {
+				break
+			}
+			file := newFile(".group.toml")
+			c18ensure(file, text)
+			first, g, _ := c18readGroup(file)
+			os.Remove(file)
+			obs = first
+			outs = append(outs, "uses:"+c18class(first))
+			if g == nil || g.Roster == nil || len(g.Roster.List) == 0 {
+				break
+			}
+			func() {
+				defer func() {
+					if r := recover(); r != nil {
+						obs = "panic"
+					}
+				}()
+				list := g.Roster.List
+				if k > len(list) {
+					k = len(list)
+				}
+				// outsiders with keys of the first server's suite (NewRoster cannot add points of different Go types)
+				var outsiders []*network.ServerIdentity
+				for i := 0; i < 2; i++ {
+					// fresh points (kyber's Clone shares memory for some suites: nothing of the group is touched here)
+					pt := suite.Point().Pick(suite.XOF([]byte(fmt.Sprintf("c18 outsider %d", i))))
+					outsiders = append(outsiders, network.NewServerIdentity(pt, network.Address(fmt.Sprintf("tls://10.0.0.%d:7770", 98+i))))
+				}
+				for lo := 0; lo < len(list) && lo < 3; lo++ {
+					for hi := lo + 1; hi <= len(list) && hi <= lo+k; hi++ {
+						part := onet.NewRoster(list[lo:hi])
+						part.Concat(outsiders[0])
+						part.Concat(outsiders...)
+						onet.NewRoster(part.List[:1]).Concat(outsiders[1], outsiders[0])
+					}
+				}
+				g.Roster.Concat(outsiders[0])
+				g.Roster.NewRosterWithRoot(list[k-1])
+				g.Roster.RandomSubset(list[0], k)
+				after, pre := c18dump(g.Roster.List)
+				obs = after
+				id2, e2 := g.Roster.GetID()
+				switch {
+				case after != first:
+					cs.Fail("read-result-changed", fmt.Sprintf("the group that was read no longer holds the identities of the file after rosters were made from parts of its list and extended with Concat:\nread   %s\nlater  %s", first, after))
+				case e2 != nil || !id2.Equal(g.Roster.ID) || id2.String() != c18idOfPre(pre):
+					cs.Fail("read-result-changed", fmt.Sprintf("after the uses Roster.ID is %s, GetID() %s, the keys in slice order give %s", g.Roster.ID, id2, c18idOfPre(pre)))
+				}
+			}()
 		case len(tk) == 4 && tk[1] == "writeread":
 			su, _ := c20unhex(tk[2])
 			n, _ := strconv.Atoi(tk[3])
@@ -1463,6 +1520,7 @@ func c18generate(c *h.Ctx, yield func(*h.Case)) {
 	pre := c18preambleOps()
 	n := 0
 	textLevel := false // the next cases are text-level ones
+	usesNext := false // the next group case with a write suite gets a `uses` op for sure
 	emitGroup := func(class, text string, reads int, child bool, writeSuite string) {
 		ops, ok := c18groupOps(text)
 		if !ok {
@@ -1471,7 +1529,7 @@ func c18generate(c *h.Ctx, yield func(*h.Case)) {
 		}
 		cs := &h.Case{Class: class}
 		cs.Ops = append(cs.Ops, pre...)
-		if bad, ok := c18badGroup(text); ok && (textLevel || g.r.Intn(3) == 0) {
+		if bad, ok := c18badGroup(text); ok && !usesNext && (textLevel || g.r.Intn(3) == 0) {
 			// text level: the model reads the text itself (Model/C18Toml.lean)
 			cs.Class = "text:" + class
 			cs.Ops = append(cs.Ops, "c18 text "+c18hex(text), fmt.Sprintf("c18 readtext %d %s %s", reads, c18b(child), bad))
@@ -1488,6 +1546,13 @@ func c18generate(c *h.Ctx, yield func(*h.Case)) {
 		cs.Ops = append(cs.Ops, ops...)
 		cs.Ops = append(cs.Ops, fmt.Sprintf("c18 readgroup %d %s", reads, c18b(child)))
 		if writeSuite != "" {
+			if usesNext || g.r.Intn(4) == 0 {
+				// the consumer's side: rosters from parts of the list that was read, extended, rotated - then the
+				// group is looked at again (before it is written out)
+				cs.Ops = append(cs.Ops, fmt.Sprintf("c18 uses %d %s", 1+g.r.Intn(4), c18hex(writeSuite)))
+				c.Count("op=uses")
+				usesNext = false
+			}
 			cs.Ops = append(cs.Ops, fmt.Sprintf("c18 writeread %s %d", c18hex(writeSuite), 3))
 		}
 		c.Count("kind=group")
@@ -1555,6 +1620,12 @@ func c18generate(c *h.Ctx, yield func(*h.Case)) {
 		btxt, _ := g.groupText(0, "Ed25519")
 		g.forceN = 0
 		emitGroup("corpus-big-group", btxt, 30, true, "Ed25519")
+		// a group of four, then rosters made from the first servers of its list and extended (seeded C18r5-B)
+		g.forceN = 4
+		utxt, _ := g.groupText(0, "Ed25519")
+		g.forceN = 0
+		usesNext = true
+		emitGroup("corpus-roster-parts-extended", utxt, 8, false, "Ed25519")
 	}
 	// ---- keys that differ only in case (the decoder matches keys to fields without regard to case): a
 	// table that holds `Public` and `public` is rejected (repaired in /repo 4aac1e6 - before, both went
@@ -1583,6 +1654,19 @@ func c18generate(c *h.Ctx, yield func(*h.Case)) {
 				srv("Public", "servers", fmt.Sprintf("  [servers.Services.c18svcEd]\n    Public = \"%s\"\n    Suite = \"Ed25519\"\n", k3.pub)), // another spelling in another element: read
 			srv("Public", "servers", "  Public = \""+k2.pub+"\"\n"), // the same key twice: a TOML error
 		}
+		// the array of tables itself spelled in two ways, with DIFFERENT servers under the two spellings (the two
+		// arrays go into the one field in map order, so an accepted file reads as two different rosters)
+		srvK := func(k c18key, arr string, n int) string {
+			return fmt.Sprintf("[[%s]]\n  Address = \"tcp://10.0.0.%d:7770\"\n  Suite = \"Ed25519\"\n  Public = \"%s\"\n  Description = \"server %d under %s\"\n", arr, n, k.pub, n, arr)
+		}
+		emitGroup("corpus-array-spelled-twice", srvK(k1, "servers", 1)+srvK(k2, "servers", 2)+srvK(k3, "Servers", 3), 50, true, "")
+		variants = append(variants,
+			srvK(k1, "servers", 1)+srvK(k2, "Servers", 2),
+			srvK(k1, "Servers", 1)+srvK(k2, "servers", 2)+srvK(k3, "servers", 3),
+			srvK(k1, "servers", 1)+srvK(k2, "SERVERS", 2)+srvK(k3, "servers", 3),
+			srvK(k1, "servers", 1)+srvK(k2, "servers", 2)+srvK(k3, "servers", 3)+srvK(k1, "sErvers", 4),
+			srvK(k1, "servers", 1)+fmt.Sprintf("  [servers.Services.c18svcEd]\n    Public = \"%s\"\n    Suite = \"Ed25519\"\n", k2.pub)+srvK(k3, "Servers", 2),
+			srvK(k1, "SERVERS", 1)+srvK(k2, "SERVERS", 2)+srvK(k3, "SERVERS", 3)) // consistently another spelling: read
 		for _, v := range variants {
 			emitGroup("case-variant-keys:group", v, 30, false, "")
 		}
